@@ -56,6 +56,10 @@ inductive AttrVal where
   | str (s : PStr)
   /-- a list or tuple of strings (multi-valued attribute): joined with one space -/
   | list (l : List PStr)
+  /-- an `AttributeValueWithCharsetSubstitution` (the `content` / `charset` value of a parsed `<meta>`) rendered with an
+      `eventual_encoding`: `val.substitute_encoding(eventual_encoding)` (element.py:2613-2617) gives the text — `rewritten`,
+      recorded from the real method (C08's) — which then goes through the formatter like any other value -/
+  | charset (rewritten : PStr)
 
 def joinSp : List PStr → PStr
   | [] => []
@@ -67,6 +71,7 @@ def AttrVal.text : AttrVal → Option PStr
   | .absent => none
   | .str s => some s
   | .list l => some (joinSp l)
+  | .charset r => some r
 
 /-- `key` or `key="value"` (element.py:2588-2606) for a formatter `e` -/
 def formatAttribute (T : Tbl) (X : List (Nat × PStr)) (e : RegEntry) (key : PStr) (v : AttrVal) : PStr :=
